@@ -1,6 +1,7 @@
 //! C26: invalid run requests are reported as errors, never panics.
 //!
-//! Four small models (declared input metadata: fixed dims / symbolic dims /
+//! Four small models (declared metadata of the inputs, of an intermediate value
+//! (value_info) and of a graph output: fixed dims / symbolic dims /
 //! dtype only / none) x every request over an id alphabet (valid values,
 //! constant, intermediate, operator id, unknown ids) with repetition x every
 //! supplied-tensor variant (dtype, rank, dims, empty, sequence) x entry points
@@ -28,20 +29,27 @@ const METAS: [Meta; 4] = [Meta::Fixed, Meta::Symbolic, Meta::DtypeOnly, Meta::Un
 
 fn model_bytes(meta: Meta) -> Vec<u8> {
     let mut g = onnx::Graph::new("c26");
+    let info = |name: &str| match meta {
+        Meta::Fixed => onnx::ValueInfo::fixed(name, onnx::dtype::FLOAT, &[2, 2]),
+        Meta::Symbolic => onnx::ValueInfo::new(name, onnx::dtype::FLOAT, &[onnx::Dim::Sym("a".into()), onnx::Dim::Sym("b".into())]),
+        Meta::DtypeOnly => onnx::ValueInfo::typed_no_shape(name, onnx::dtype::FLOAT),
+        Meta::Untyped => onnx::ValueInfo::untyped(name),
+    };
     for name in ["x0", "x1"] {
-        g.inputs.push(match meta {
-            Meta::Fixed => onnx::ValueInfo::fixed(name, onnx::dtype::FLOAT, &[2, 2]),
-            Meta::Symbolic => onnx::ValueInfo::new(name, onnx::dtype::FLOAT, &[onnx::Dim::Sym("a".into()), onnx::Dim::Sym("b".into())]),
-            Meta::DtypeOnly => onnx::ValueInfo::typed_no_shape(name, onnx::dtype::FLOAT),
-            Meta::Untyped => onnx::ValueInfo::untyped(name),
-        });
+        g.inputs.push(info(name));
+    }
+    // The intermediate value v4 (value_info) and the graph output v3 carry the
+    // same kind of declared metadata as the inputs, so that requests which
+    // supply them are validated against it too.
+    if meta != Meta::Untyped {
+        g.value_infos.push(info("v4"));
     }
     g.initializers.push(onnx::Tensor::f32("c0", &[2, 2], &[1.0, 2.0, 3.0, 4.0]));
     g.nodes.push(onnx::Node::new("Add", &["x0", "c0"], &["v3"]).named("op_add"));
     g.nodes.push(onnx::Node::new("Relu", &["v3"], &["v4"]).named("op_relu"));
     g.nodes.push(onnx::Node::new("MatMul", &["v4", "x1"], &["v5"]).named("op_matmul"));
     g.outputs.push(onnx::ValueInfo::untyped("v5"));
-    g.outputs.push(onnx::ValueInfo::untyped("v3"));
+    g.outputs.push(info("v3"));
     onnx::model_bytes(&g)
 }
 
@@ -51,6 +59,7 @@ enum Id {
     X1,
     C0,
     V3,
+    V4,
     V5,
     Op,
     Unknown,
@@ -88,6 +97,7 @@ struct Ids {
     x1: NodeId,
     c0: NodeId,
     v3: NodeId,
+    v4: NodeId,
     v5: NodeId,
     op: NodeId,
 }
@@ -98,6 +108,7 @@ fn resolve(ids: &Ids, i: Id) -> NodeId {
         Id::X1 => ids.x1,
         Id::C0 => ids.c0,
         Id::V3 => ids.v3,
+        Id::V4 => ids.v4,
         Id::V5 => ids.v5,
         Id::Op => ids.op,
         Id::Unknown => NodeId::from_u32(100_000),
@@ -121,7 +132,7 @@ fn defect(meta: Meta, inputs: &[(Id, Tv)], outputs: &[Id], partial: bool) -> Opt
         return Some("non-value input id");
     }
     for (i, tv) in inputs {
-        if matches!(i, Id::X0 | Id::X1) {
+        if matches!(i, Id::X0 | Id::X1 | Id::V3 | Id::V4) {
             let declares_dtype = meta != Meta::Untyped;
             let declares_rank = matches!(meta, Meta::Fixed | Meta::Symbolic);
             if declares_dtype && matches!(tv, Tv::I32 | Tv::Seq) {
@@ -140,7 +151,8 @@ fn defect(meta: Meta, inputs: &[(Id, Tv)], outputs: &[Id], partial: bool) -> Opt
         for o in outputs {
             let missing = match o {
                 Id::V3 => !has(Id::V3) && !has(Id::X0),
-                Id::V5 => !has(Id::V5) && (!has(Id::X1) || (!has(Id::V3) && !has(Id::X0))),
+                Id::V4 => !has(Id::V4) && !has(Id::V3) && !has(Id::X0),
+                Id::V5 => !has(Id::V5) && (!has(Id::X1) || (!has(Id::V4) && !has(Id::V3) && !has(Id::X0))),
                 Id::X0 => !has(Id::X0),
                 Id::X1 => !has(Id::X1),
                 _ => false,
@@ -220,6 +232,7 @@ fn parse_id(s: &str) -> Id {
         "X1" => Id::X1,
         "C0" => Id::C0,
         "V3" => Id::V3,
+        "V4" => Id::V4,
         "V5" => Id::V5,
         "Op" => Id::Op,
         "Unknown" => Id::Unknown,
@@ -237,7 +250,7 @@ fn load(meta: Meta) -> (Model, Ids) {
     let f = |n: &str| model.find_node(n).unwrap_or_else(|| vp_core::machinery_error("node missing"));
     let v3 = f("v3");
     let op = g.get_source_node(v3).map(|x| x.0).unwrap_or_else(|| vp_core::machinery_error("no source op"));
-    let ids = Ids { x0: f("x0"), x1: f("x1"), c0: f("c0"), v3, v5: f("v5"), op };
+    let ids = Ids { x0: f("x0"), x1: f("x1"), c0: f("c0"), v3, v4: f("v4"), v5: f("v5"), op };
     (model, ids)
 }
 
@@ -252,7 +265,7 @@ pub fn run(ctx: Ctx) -> ! {
         check(&ctx, meta, &model, &ids, &inputs, &outputs, case["entry"].as_str().unwrap_or("run"), &cnt);
         ctx.finish("fault_enumeration", json!({"evaluations": 1, "distinct_nontrivial": 2, "rule": "replay", "samples": [case]}), vec![]);
     }
-    let in_ids = [Id::X0, Id::X1, Id::C0, Id::V3, Id::Op, Id::Unknown, Id::Big];
+    let in_ids = [Id::X0, Id::X1, Id::C0, Id::V3, Id::V4, Id::Op, Id::Unknown, Id::Big];
     let out_ids = [Id::V5, Id::V3, Id::X0, Id::C0, Id::Op, Id::Unknown];
     let thorough = ctx.tier.is_thorough();
     // input lists
@@ -334,7 +347,7 @@ pub fn run(ctx: Ctx) -> ! {
     let cov: Json = json!({
         "evaluations": calls,
         "distinct_nontrivial": defects,
-        "rule": "4 models x every input list (<=2 entries over ids {x0,x1,const,intermediate,operator id,unknown id,i32::MAX} with repetition x 8 tensor variants each; thorough adds triples) x every output list (<=2 over {final,intermediate,input,const,operator id,unknown}; thorough <=3) x {run, run_n, partial_run} + run_one; non-trivial = requests that contain a defect for which the property demands an error",
+        "rule": "4 models x every input list (<=2 entries over ids {x0,x1,const,declared graph output v3,declared intermediate v4,operator id,unknown id,i32::MAX} with repetition x 8 tensor variants each; thorough adds triples) x every output list (<=2 over {final,intermediate,input,const,operator id,unknown}; thorough <=3) x {run, run_n, partial_run} + run_one; non-trivial = requests that contain a defect for which the property demands an error",
         "samples": samples.take(),
         "exhaustive": true,
         "calls": calls,
